@@ -836,10 +836,13 @@ namespace ip {
 				assert(m_bytes_in_flight >= acked_bytes);
 				m_bytes_in_flight -= acked_bytes;
 
-				// potentially resend packets
-				while (!m_outgoing_packets.empty()
+				// potentially resend packets. A resent packet may be dropped by the
+				// first hop right away, which puts it back at the end of the
+				// list: try each packet at most once per ACK
+				for (std::size_t n = m_outgoing_packets.size(); n > 0
+					&& !m_outgoing_packets.empty()
 					&& m_bytes_in_flight
-						+ int(m_outgoing_packets.front().buffer.size()) <= m_cwnd)
+						+ int(m_outgoing_packets.front().buffer.size()) <= m_cwnd; --n)
 				{
 					aux::packet pkt = std::move(m_outgoing_packets.front());
 					m_outgoing_packets.erase(m_outgoing_packets.begin());
